@@ -135,6 +135,30 @@ def classify(sc, ts):
     return 'nondet' if nondet else 'conflict' if conflict else 'ok'
 
 
+PURE = __import__('re').compile(r"^(?:\s|\d+|True|False|not|and|or|event\.[vb]|x|y|seen|last|[vck]\d+|[%<>=!()+\-*])+$")
+
+
+def pure_eval(text, ctx, event):
+    """The value of a guard / condition that reads nothing but context variables and the parameters `v`, `b` of
+    the exposed event, computed by the harness itself (`ctx`: list of [name, value] pairs, `event`: protocol
+    event or None).  Returns None when the text is not of that kind, or cannot be evaluated."""
+    if not text or not PURE.match(text):
+        return None
+    ns = {k: v for k, v in ctx if isinstance(v, (bool, int))}
+    if 'event' in text:
+        if event is None:
+            return None
+        import types
+        d = dict(map(tuple, event['data']))
+        if not all(isinstance(d.get(k), (bool, int)) for k in ('v', 'b') if ('event.' + k) in text):
+            return None
+        ns['event'] = types.SimpleNamespace(**{k: d[k] for k in ('v', 'b') if k in d})
+    try:
+        return bool(eval(text, {'__builtins__': {}}, ns))     # (texts written by the generator only)
+    except Exception:       # noqa
+        return None
+
+
 def guard_table(eff):
     """{(tid, exposed?): result} from the guard entries of an effect log"""
     tab = {}
